@@ -17,6 +17,10 @@
    - the first close writes exactly one ClientClose, a later one nothing;
    - while the driver does not read its command ring and the ring is full (SetRingFull, an input of the history) a drop
      and a close write nothing; a dropped subscription is released locally all the same;
+   - a channel endpoint error (error code 4: the id it carries is a channel status indicator id, compared as i32) ends every
+     registration whose handle exists and sits on that channel status indicator - a subscription from its ready answer on,
+     a publication / exclusive publication from its first lookup on: later lookups report it unknown (NotFound) and
+     dropping the (closed) handle writes no command; every other registration is untouched;
    - every command carries the client id and a correlation id larger than all before.
    Where the statement is silent (an error answer after a ready answer, two different error answers) the
    registration becomes `LAny` and is not judged any more. Panic / Hang of a duty cycle or of close is judged by
@@ -56,6 +60,20 @@ Definition err_tr (code : Z) (x : life) : life :=
   match x with LAwait _ _ _ => LErr code | LReady _ _ _ _ => LAny | LErr _ => LAny | y => y end.
 Definition rerror (r code : Z) (l : list (kind * Z * life)) : list (kind * Z * life) :=
   map (fun p => if snd (fst p) =? r then (fst p, err_tr code (snd p)) else p) l.
+
+(* a channel endpoint error for the channel status indicator id x *)
+Definition chan_tr (k : kind) (x : Z) (l : life) : life :=
+  match l with
+  | LReady h d1 d2 d3 =>
+      match k with
+      | KSub => if d1 =? wrap32 x then LGone else l
+      | KPub | KXPub => match h with Some _ => if d2 =? wrap32 x then LGone else l | None => l end
+      | _ => l
+      end
+  | _ => l
+  end.
+Definition rchan (x : Z) (l : list (kind * Z * life)) : list (kind * Z * life) :=
+  map (fun p => (fst p, chan_tr (fst (fst p)) x (snd p))) l.
 
 Definition list_eqb (a b : list Z) : bool :=
   (Z.of_nat (length a) =? Z.of_nat (length b)) && forallb (fun p => fst p =? snd p) (combine a b).
@@ -104,6 +122,7 @@ Definition ready_step (ev : event) (q : ost) : list (kind * Z * life) * option c
   | EvCounterReady corr cid => tr KCtr corr cid 0 0 (fun _ _ => None)
   | EvOpSuccess corr => tr KDest corr 0 0 0 (fun _ _ => None)
   | EvError corr code => (rerror corr code (q_regs q), None)
+  | EvChanError x => (rchan x (q_regs q), None)
   | _ => (q_regs q, None)
   end.
 
